@@ -124,6 +124,27 @@ def run(prog, chk):
                          lambda f, x: is_int(x) and strip(x)["v"] == OKV, "verdict==OK")),
     ])
 
+    # the requested level goes onto the chain found at a fixed position of the list: the list is ordered before the level is added.
+    # (Only while the position is fixed: a version that looks the lowest chain up itself does not depend on the order.)
+    def positional(f, depth=0):
+        for b, i, n in f.calls():
+            nm = n.get("fn") or ""
+            if nm.endswith("List_elementAt") and len(n["a"]) > 1 and is_int(f.resolve(strip(n["a"][1]))):
+                return f.loc(f.elem_line(b, i))
+            g = next((x for x in prog.functions.get(nm, []) if x.unit == f.unit), None) if depth < 3 and nm != f.name else None
+            hit = positional(g, depth + 1) if g is not None else None
+            if hit:
+                return hit
+        return None
+    fl = prog.fn("addRootLevel", "signature_builder.c")
+    where = positional(fl)
+    if where:
+        require_chain(chk, "C07.chain", fc, "addRootLevel()", list(fc.calls("addRootLevel")),
+                      [g_ok("KSI_AggregationHashChainList_sort", arg_prov("param:%s->sig->aggregationChainList" % bp))])
+    else:
+        chk.ob("C07.chain", "KSI_SignatureBuilder_close:addRootLevel()<=sorted", True,
+               "addRootLevel does not pick its chain by position: no ordering needed", loc=fl.loc(), fn=fl, nontrivial=False)
+
     # sign request
     fr = prog.fn("KSI_createSignRequest", "signature.c")
     cp, hp, lv, rq = [p["n"] for p in fr.params]
